@@ -119,8 +119,9 @@ def run_inventory(ctx, facts, cfgname, rule="R1", bodies_filter=None, quiet_ok=F
                 spawns = st.calls_re(r"thread::(builder::)?Builder::spawn(_unchecked)?$", cleanup=False)
                 if stores and spawns and all(any(st.dominates(s, sp) for s in stores) for sp in spawns):
                     how = "GLOBAL_COLLECTOR is set to Some(..) before the collector thread is spawned and is never reset"
-        if how is None and kind == "panic" and fn.path.endswith("LocalSpanStack::with_properties") and "assert_failed" in msg:
-            cs = panics.epoch_guarded_callers(facts, prov, fn.path)
+        host = re.sub(r"(::\{closure#[^}]*\})+$", "", fn.path)       # an assertion moved into a closure of the same function is the same assertion
+        if how is None and kind == "panic" and host.endswith("LocalSpanStack::with_properties") and "assert_failed" in msg:
+            cs = panics.epoch_guarded_callers(facts, prov, host)
             if cs and all(ok for _, _, ok in cs):
                 how = "every caller checks that the handle's epoch is the current scope's before calling"
             else:
@@ -134,7 +135,7 @@ def run_inventory(ctx, facts, cfgname, rule="R1", bodies_filter=None, quiet_ok=F
                 continue
         if how is None:
             for rx, k, mrx, reason in panics.PRECONDITION:
-                if re.search(rx, fn.path) and k == kind and re.search(mrx, msg):
+                if re.search(rx, host) and k == kind and re.search(mrx, msg):
                     how = "precondition (guards released in reverse order): " + reason
         if how is None and kind == "unwrap":
             # environment table: what produced the Result being unwrapped
